@@ -15,7 +15,7 @@ BUILTIN = ["date", "email", "idn-email", "idn-hostname", "ipv4", "ipv6", "regex"
 NAMES = BUILTIN + ["unknown-format", "", "IPV4", "uri", "x"]
 BEHAVIOURS = ["true", "truthy-str", "truthy-list", "one", "false", "zero", "empty-str", "none", "empty-list",
               "raise-listed-0", "raise-listed-1", "raise-listed-2", "raise-unlisted", "raise-unlisted-lookup",
-              "raise-unlisted-keyerror", "raise-unlisted-formaterror"]
+              "raise-unlisted-keyerror", "raise-unlisted-formaterror", "raise-unlisted-validationerror"]
 TRUTHY = {"true": True, "truthy-str": "x", "truthy-list": [0], "one": 1}
 FALSY = {"false": False, "zero": 0, "empty-str": "", "none": None, "empty-list": []}
 
@@ -36,6 +36,9 @@ class Unlisted(Exception):
     pass
 
 
+UnlistedVE = None       # a user's subclass of the library's own ValidationError (bound in setup: needs the import)
+
+
 FORMAT_STRINGS = sorted(set(s for f in ("ipv4", "ipv6", "date", "email", "regex", "time") for s in c13.SEEDS[f][:14]))
 fmt_instances = st.one_of(st.sampled_from(FORMAT_STRINGS), V.scalars, V.inst)
 LEAF_KW = [("type", "string"), ("type", ["string", "null"]), ("minLength", 3), ("maxLength", 5), ("enum", ["1.2.3.4", 1]),
@@ -45,7 +48,7 @@ LEAF_KW = [("type", "string"), ("type", ["string", "null"]), ("minLength", 3), (
 @st.composite
 def scripts(draw):
     out = {}
-    for n in draw(st.lists(st.sampled_from(["s1", "s2", "ipv4", "date"]), min_size=1, max_size=3, unique=True)):
+    for n in draw(st.lists(st.sampled_from(["s1", "s2", "ipv4", "date", ""]), min_size=1, max_size=3, unique=True)):
         out[n] = {"listed": draw(st.sampled_from([[], ["ListedA"], ["ListedA", "ListedB"], ["ListedK"],
                                                   ["ListedB", "ListedK", "ListedA"], ["KeyError"]])),
                   "default": draw(st.sampled_from(BEHAVIOURS)),
@@ -156,6 +159,12 @@ class Scripted(object):
                 e = KeyError("scripted unlisted failure")
             elif b == "raise-unlisted-formaterror":
                 e = impl.exceptions.FormatError("scripted unlisted FormatError raised by the function itself")
+            elif b == "raise-unlisted-validationerror":
+                # the library's own error type, raised -- not yielded -- by user code: still an unlisted exception
+                global UnlistedVE
+                if UnlistedVE is None:
+                    UnlistedVE = type("UnlistedVE", (impl.exceptions.ValidationError,), {})
+                e = UnlistedVE("scripted unlisted ValidationError raised by the function itself")
             else:
                 e = Unlisted("scripted unlisted failure")
             self.raised.append(e)
@@ -334,6 +343,16 @@ class C12(Prop):
                     res.fail(("flat", "unlisted-exception-swallowed"), "format=%r instance=%s" % (name, impl.cj(x)[:100]))
                 elif sc is not None and (not sc.raised or raised is not sc.raised[-1]):
                     res.fail(("flat", "unlisted-exception-not-identical", impl.tname(raised)), repr(raised)[:200])
+                # ... through every entry point, not only the error iterator
+                # (both stop at the first error: the function is certainly reached only if nothing else fails)
+                for ep in (("is_valid", "validate") if not base else ()):
+                    try:
+                        getattr(vlate or cls(copy.deepcopy(s), format_checker=fc), ep)(x)
+                        res.fail(("flat", "unlisted-exception-swallowed", ep), "format=%r instance=%s: %s returned normally" % (
+                            name, impl.cj(x)[:100], ep))
+                    except Exception as e2:
+                        if sc is not None and (not sc.raised or e2 is not sc.raised[-1]):
+                            res.fail(("flat", "unlisted-exception-not-identical", ep, impl.tname(e2)), repr(e2)[:200])
                 continue
             if raised is not None:
                 res.fail(("flat", "raises", impl.tname(raised)), "format=%r instance=%s: %r" % (name, impl.cj(x)[:100], raised))
@@ -416,6 +435,9 @@ class C12(Prop):
                 res.labels.append("nested:propagated(order-dependent)")
                 continue
             except Exception as e:
+                if type(e).__name__ == "UnlistedVE":
+                    res.labels.append("nested:propagated(order-dependent)")
+                    continue
                 res.excluded = "crash(C03):" + impl.tname(e)
                 continue
             if got != want:
